@@ -425,7 +425,7 @@ def make_items(ctx, tables, enum, per_pair, n_lops, per_apair):
     for cc, e in enum["aligned"]:
         kl, kr = cc["l"], cc["r"]
         for j in range(per_apair):
-            mode = "unknown" if j % 8 == 7 else "from_pandas" if j % 8 == 3 else "known"
+            mode = "unknown" if j % 5 == 4 else "from_pandas" if j % 5 == 2 else "known"
             ll, lr = pick_layout(kl, mode == "known"), pick_layout(kr, mode == "known")
             if mode == "unknown" and rng.random() < 0.5:
                 lr = rng.choice([l for l in enum["layouts"][kr] if len(l[0]) == len(ll[0])] or [lr])
